@@ -4,7 +4,11 @@ import json
 from contextlib import contextmanager
 
 from . import cext
-from .core import Sym, some, sx, run_model
+from .core import Sym, some, sx, run_model as _run_model
+
+
+def run_model(lines):
+    return _run_model("C18", lines)
 
 
 def _imports():
